@@ -52,7 +52,10 @@ def live_fields(fields):
 # ---------------------------------------------------------------------------
 # reference format (minicbor-derive documentation, section "CBOR encoding")
 
-def ref_fields(fields, enc, present):
+D5_KEY = 'D5|absent tagged optional inside an array is written as tag+null'
+
+
+def ref_fields(fields, enc, present, d5=False):
     fs = live_fields(fields)
     toks = []
     if enc == 'map':
@@ -76,6 +79,9 @@ def ref_fields(fields, enc, present):
             if f['tag'] is not None:
                 toks.append(('TAG', f['tag']))
             toks.append(('VAL', f))
+        elif d5 and f is not None and f['tag'] is not None:
+            toks.append(('TAG', f['tag']))
+            toks.append(('NULL',))
         elif f is not None and (f['codec'] == 'custom_nil' or f.get('_generic')):
             # a nil value of a type with an opaque is_nil/encode pair: the slot holds whatever that type writes for nil
             toks.append(('NULL_OR_VAL', f))
@@ -84,7 +90,7 @@ def ref_fields(fields, enc, present):
     return toks
 
 
-def reference(s, variant, present):
+def reference(s, variant, present, d5=False):
     toks = []
     if s.get('transparent'):
         return [('VAL', s['fields'][0])]
@@ -92,7 +98,7 @@ def reference(s, variant, present):
         toks.append(('TAG', s['tag']))
     if s['kind'] != 'enum':
         enc = s.get('enc') or 'array'
-        return toks + ref_fields(s['fields'], enc, present)
+        return toks + ref_fields(s['fields'], enc, present, d5)
     v = variant
     if s.get('index_only'):
         return toks + [('IDX', v['idx'])]
@@ -103,7 +109,7 @@ def reference(s, variant, present):
     if v['kind'] == 'unit':
         toks.append(('MAP', 0) if enc == 'map' else ('ARRAY', 0))
         return toks
-    return toks + ref_fields(v['fields'], enc, present)
+    return toks + ref_fields(v['fields'], enc, present, d5)
 
 
 # ---------------------------------------------------------------------------
@@ -357,6 +363,10 @@ def c08(ctx, schemas=None, prog=None):
                     break
             if problem:
                 why, toks, c = problem
+                toks5 = reference(s, v, lambda f, c=c: bool(c.get(f['name'], True)), d5=True)
+                if toks5 != toks and match_stream(o.st.events, toks5) is None:
+                    ctx.violation('S-ENC.derive', D5_KEY, 'schema %s {%s}: %s; emitted %s, documented format is [%s]' % (label, pv_key(pres), why, fmt_items(o.st.events), fmt_toks(toks)), where)
+                    continue
                 ctx.violation('S-ENC.derive', key, '%s; emitted %s, documented format is [%s]' % (why, fmt_items(o.st.events), fmt_toks(toks)), where)
             elif fl:
                 ctx.violation('S-ENC.derive.precision', label, 'summary not exact (%s)' % ','.join(fl), where)
@@ -369,6 +379,19 @@ def c08(ctx, schemas=None, prog=None):
     return n
 
 
+def classify_d5_len(m, st, events, total, value):
+    """a length mismatch that is exactly the tag bytes of absent tagged optionals written as tag+null inside an array"""
+    from ..absint import lin_add
+    ev = [e for e in events if e[0] == 'ITEM']
+    extra = Int.const(0)
+    for a, b in zip(ev, ev[1:]):
+        if a[1] == 'TAG' and b[1] == 'NULL' and isinstance(a[2], Int) and a[2].is_const():
+            extra = lin_add(extra, l2.hl_term(m, st, a[2]), 1)
+    if extra.is_const() and extra.c > 0 and lin_add(value, extra, 1) == total:
+        return D5_KEY
+    return None
+
+
 def c07(ctx, schemas=None, prog=None):
     d = corpus()
     prog = prog or load.program('schemas')
@@ -376,7 +399,7 @@ def c07(ctx, schemas=None, prog=None):
     roots = 0
     for s in (schemas or d['schemas']):
         where = 'derive(CborLen) on %s [%s]' % (s['name'], s.get('doc') or s['kind'])
-        k = summaries.compare_len_enc(ctx, 'S-LEN.derive', s['name'], prog, enc_path(s), len_path(s), LEAF, where=where)
+        k = summaries.compare_len_enc(ctx, 'S-LEN.derive', s['name'], prog, enc_path(s), len_path(s), LEAF, where=where, classify=classify_d5_len)
         n += k
         roots += 1 if k else 0
     ctx.floor('S-LEN.derive', 'schemas', roots, min(60, len(schemas or d['schemas'])))
@@ -461,6 +484,10 @@ def check_decode_over(ctx, rule, key, prog, s, dpath, events, expect, where, lea
         if kind != 'Ok':
             cls = l1.error_class(prog, o.value.fields[0]) if isinstance(o.value, Adt) and o.value.fields else '?'
             mm = [e for e in o.st.events if e[0] == 'MISMATCH']
+            if mm and mm[0][1] == 'tag' and mm[0][2] is not None and mm[0][2][0] == 'ITEM' and mm[0][2][1] == 'NULL':
+                ctx.violation(rule, D5_KEY, '%s: the reader expects a tag where the writer left a plain null (absent optional / gap): %s' % (key, cls), where)
+                good = False
+                continue
             ctx.violation(rule, key + '|error', 'decoding fails with %s%s' % (cls, (' at ' + repr(mm[0][1:3])[:160]) if mm else ''), where)
             good = False
             continue
